@@ -640,6 +640,14 @@ struct TName<unsigned char>
   }
 };
 template <>
+struct TName<unsigned>
+{
+  static const char *n()
+  {
+    return "u32";
+  }
+};
+template <>
 struct TName<double>
 {
   static const char *n()
@@ -971,8 +979,8 @@ static void check_access(int dx, int dy, int dz)
     for (int y = 0; y < dy; y++)
       for (int x = 0; x < dx; x++) {
         // the value of the same cell, converted: integers below 2^24 are exact in float; float -> int drops the fraction
-        const long double src = (long double)m.at(x, y, z);
-        const long double want = std::is_integral<OUT>::value ? truncl(src) : src;
+        // (the language's own conversion: float -> int drops the fraction, a negative int -> unsigned wraps)
+        const long double want = (long double)static_cast<OUT>(m.at(x, y, z));
         const OUT g = ba.get(vec3i(x, y, z));
         const ll gp = (ll)bp.get(vec3i(x, y, z));
         C.states++;
@@ -986,6 +994,29 @@ static void check_access(int dx, int dy, int dz)
           viol(C, A + "::get|asks the underlying array for a different cell|any", spec,
               "dims " + s3(dims) + " get" + s3(x, y, z) + " read cell " + decode(gp));
       }
+  // getValueRange through the accessor: tight bounds of the CONVERTED values of every region (the conversion need
+  // not preserve the order: negative ints become the largest unsigned values)
+  for (int bz = 0; bz < dz; bz++)
+    for (int by = 0; by < dy; by++)
+      for (int bx = 0; bx < dx; bx++)
+        for (int ez = bz + 1; ez <= dz; ez++)
+          for (int ey = by + 1; ey <= dy; ey++)
+            for (int ex = bx + 1; ex <= dx; ex++) {
+              OUT lo = static_cast<OUT>(m.at(bx, by, bz)), hi = lo;
+              for (int z = bz; z < ez; z++)
+                for (int y = by; y < ey; y++)
+                  for (int x = bx; x < ex; x++) {
+                    const OUT c = static_cast<OUT>(m.at(x, y, z));
+                    lo = c < lo ? c : lo;
+                    hi = hi < c ? c : hi;
+                  }
+              const range_t<OUT> r = ba.getValueRange(vec3i(bx, by, bz), vec3i(ex, ey, ez));
+              C.states++;
+              C.trans += 1;
+              if (!(r.lower == lo && r.upper == hi))
+                viol(C, A + "::getValueRange(begin,end)|is not [min,max] of the converted values of the region|any", spec,
+                    "dims " + s3(dims) + " region " + s3(bx, by, bz) + ".." + s3(ex, ey, ez) + " got [" + sval(r.lower) + "," + sval(r.upper) + "] want [" + sval(lo) + "," + sval(hi) + "]");
+            }
   vr::sample(A + " dims " + s3(dims) + ": every cell, e.g. " + sval(m.at(dx - 1, dy - 1, dz - 1)) + " -> " + sval(ba.get(vec3i(dx - 1, dy - 1, dz - 1))), "access" + tn);
   C.commit();
 }
@@ -1211,6 +1242,8 @@ static bool run_case(const std::string &spec)
       check_access<int, float>((int)v[0], (int)v[1], (int)v[2]);
     else if (tn == "f>i")
       check_access<float, int>((int)v[0], (int)v[1], (int)v[2]);
+    else if (tn == "i>u32")
+      check_access<int, unsigned>((int)v[0], (int)v[1], (int)v[2]);
     else
       return false;
     return true;
@@ -1327,6 +1360,7 @@ int main(int argc, char **argv)
         }
         add("access:i>f," + d);
         add("access:f>i," + d);
+        add("access:i>u32," + d);
       }
   for (int dy = 1; dy <= AR; dy++)
     for (int dx = 1; dx <= AR; dx++)
@@ -1345,7 +1379,7 @@ int main(int argc, char **argv)
         vr::violation("harness|unparsable case", cases[i], "internal");
       vr::stat("cases");
     }
-  }, 16, 300);
+  }, 16, 10);  // 10 s per case (they take milliseconds): a case that does not return ends as "<context>|signal:Alarm clock"
   vr::stat("shards", (long long)groups.size());
   vr::stat("traces", vr::S().stats["states"]);
   return vr::finish();
